@@ -104,26 +104,23 @@ Section Hier.
   Lemma subck_mono_le : forall n m t1 t2 r, n <= m -> subck n t1 t2 = Some r -> subck m t1 t2 = Some r.
   Proof. induction 1; auto using subck_mono. Qed.
 
+  Lemma dep_order_ext (to to' : ty -> ty -> option order) (s s' : ty -> ty -> option bool) t o r :
+    ext2 to to' -> ext2 s s' -> dep_order to s t o = Some r -> dep_order to' s' t o = Some r.
+  Proof.
+    intros Ht Hs. unfold dep_order. destruct (is_dep o).
+    - destruct (to (dep_bound t) (dep_bound o)) eqn:E; try discriminate. now rewrite (Ht _ _ _ E).
+    - destruct (s o (dep_bound t)) as [[|]|] eqn:E; try discriminate; rewrite (Hs _ _ _ E); auto.
+      destruct (s (dep_bound t) o) as [[|]|] eqn:E2; try discriminate; rewrite (Hs _ _ _ E2); auto.
+  Qed.
+
   Lemma hook_order_ext (to to' : ty -> ty -> option order) (s s' : ty -> ty -> option bool) t o r :
     ext2 to to' -> ext2 s s' -> hook_order to s t o = Some r -> hook_order to' s' t o = Some r.
   Proof.
-    intros Ht Hs. destruct t; simpl; auto.
+    intros Ht Hs. destruct t; cbn [hook_order]; auto; try (apply dep_order_ext; assumption).
     - destruct (omapM _ ts) eqn:E; try discriminate. erewrite omapM_ext; eauto. unfold ext1; intros x q; apply Ht.
     - destruct (omapM _ ts) eqn:E; try discriminate. erewrite omapM_ext; eauto. unfold ext1; intros x q; apply Ht.
     - destruct (ty_eqb o (Cls c)); auto. destruct (to (Cls c) o) eqn:E; simpl; try discriminate. now rewrite (Ht _ _ _ E).
-    - destruct (is_dep o).
-      + destruct (to t (dep_bound o)) eqn:E; try discriminate. now rewrite (Ht _ _ _ E).
-      + destruct (s o t) as [[|]|] eqn:E; try discriminate; rewrite (Hs _ _ _ E); auto.
-        destruct (s t o) as [[|]|] eqn:E2; try discriminate; rewrite (Hs _ _ _ E2); auto.
-    - destruct (is_dep o).
-      + destruct (to t (dep_bound o)) eqn:E; try discriminate. now rewrite (Ht _ _ _ E).
-      + destruct (s o t) as [[|]|] eqn:E; try discriminate; rewrite (Hs _ _ _ E); auto.
-        destruct (s t o) as [[|]|] eqn:E2; try discriminate; rewrite (Hs _ _ _ E2); auto.
-    - destruct (is_dep o).
-      + destruct (to t (dep_bound o)) eqn:E; try discriminate. now rewrite (Ht _ _ _ E).
-      + destruct (s o t) as [[|]|] eqn:E; try discriminate; rewrite (Hs _ _ _ E); auto.
-        destruct (s t o) as [[|]|] eqn:E2; try discriminate; rewrite (Hs _ _ _ E2); auto.
-    - destruct o; auto. destruct (Nat.eqb _ _); auto.
+    - destruct o; try (apply dep_order_ext; assumption). destruct (Nat.eqb _ _); auto.
       destruct (omapM2 to ts ts0) eqn:E; simpl; try discriminate. erewrite omapM2_ext; eauto. simpl; auto.
   Qed.
 
